@@ -106,6 +106,13 @@ pub fn c03(c: &mut Ctx, b: &Budget) {
         // plus random extra structure
         for _ in 0..c.rng.below(3) { let a = gen_assertion(c, &cfg, 1); e = c.assign(&format!("add {} {}", e, a)); }
         if i % 3 == 0 { e = c.assign(&format!("wrap {}", e)); }
+        // some elements are already compressed or encrypted before the elision under test
+        if i % 2 == 1 {
+            let (ts0, _) = gen_targets(c, &e, 2, false);
+            let act0 = if c.rng.chance(1, 2) { "compress".to_string() } else { format!("encrypt:{}", KEY2) };
+            let pre = c.assign(&format!("elide_set {} rem {} {}", e, act0, ts0));
+            if c.is_ok(&pre) { e = pre; c.count("branch:pre-obscured"); }
+        }
         observe(c, &e);
         let orig = c.env(&e).unwrap();
         for _ in 0..3 {
@@ -125,8 +132,11 @@ pub fn c03(c: &mut Ctx, b: &Budget) {
                 if act != "compress" {
                     let ser = bytes_of(&res);
                     let visible_leaves: Vec<Vec<u8>> = elements(&res).iter().filter_map(|(_, x)| x.as_leaf().map(|l| l.to_cbor_data())).collect();
+                    let orig_leaves: Vec<Vec<u8>> = elements(&orig).iter().filter_map(|(_, x)| x.as_leaf().map(|l| l.to_cbor_data())).collect();
                     for (mr, text) in &markers {
                         let leaf_bytes = c.env(mr).unwrap().as_leaf().unwrap().to_cbor_data();
+                        // a marker that sits inside an element compressed beforehand is in the bytes by construction: not this check's business
+                        if !orig_leaves.iter().any(|l| l == &leaf_bytes) && contains(&bytes_of(&orig), text) { continue; }
                         let still = visible_leaves.iter().any(|l| l == &leaf_bytes);
                         let found = contains(&ser, text);
                         c.check("no-residue", found == still, "no-residue", || format!("marker {} visible={} but found-in-bytes={} ({} action) in {}", String::from_utf8_lossy(text), still, found, act, hex::encode(&ser)));
@@ -478,6 +488,10 @@ pub fn c14(c: &mut Ctx, b: &Budget) {
                 }
             };
             if c.is_ok(&v) { pool.push(v); }
+        }
+        if let Some((pos, _)) = gen_position(c, &e) {
+            for act in ["elide".to_string(), "compress".to_string(), format!("encrypt:{}", KEY1)] { let v = c.assign(&format!("elide_set {} rem {} {}", e, act, pos)); if c.is_ok(&v) { pool.push(v); } }
+            c.count("pool:three-actions-one-position");
         }
         for x in &pool { c.obs(&format!("sdigest {}", x)); }
         let envs: Vec<Envelope> = pool.iter().map(|r| c.env(r).unwrap()).collect();
